@@ -139,7 +139,7 @@ def codec_cases(tier):
 
 
 def main(chk):
-    chk.prove(["c_port"])
+    chk.prove(["c_port", "c_port_text"])
     chk.replay_refuted()
     for name, fn, cases, bound in [
         ("Port(line) semantics + self-assignment histories through items/ports/sport", _semantics_and_views, operand_cases(chk.tier),
@@ -159,16 +159,23 @@ def main(chk):
     chk.assumptions += [
         "pyvc built-in models: range/list/len/comprehension-as-filter (order preserved, membership <=> source and condition), list.remove",
         "Port._operator is one of helpers.OPERATORS and operands are as produced by Port._line__items_to_ints (precondition `valid`)",
-        "the text path of the setters (str/int/split/join round trip inside line.fset) is not proved: bounded stand-in only",
-        "helpers.ports_to_string / string_to_ports / _port_range_min_max: bounded stand-in only (string and set iteration order semantics)",
+        "the text path of the setters is proved for operands written as numbers (named ports go through the finite tables of C09), over an abstract text model: a "
+        "line is its whitespace tokens (ghost WS_LEN/WS_ARR = assumed model of str.split and ' '.join), a decimal token is ISDIGIT/STRINT with the assumed law "
+        "int(str(n)) == n, operands >= 1; sorted() leaves an ascending list unchanged (assumed)",
+        "helpers.ports_to_string / string_to_ports / _port_range_min_max: assumed codec law (decoding the compact text of a strictly ascending list within 1..65535 "
+        "gives the list back) in the contract of Port.sport.fset; the codec itself: bounded stand-in only (string and set iteration order semantics)",
+        "self-assignment contracts require the class invariant of a non-empty Port (operator in OPERATORS, operands valid, ports == meaning of the operands), which the "
+        "contract of Port.line.fset establishes",
         "z3 5.1 / cvc5 trusted",
     ]
     return chk.finish(
         "other",
         "Deductive (all operands, no bound): Port._items_to_ports returns exactly the Cisco port set of every operator, ascending "
         "(sound/complete/ascending clauses), and Port._ports_to_items is its inverse on every op-shaped port list (meaning and text "
-        "clauses, index safety, the neq removal loop by invariant). Bounded (labelled, not counted as proved): the string codec and "
-        "the text path of the three setters, on the stated grids with an independent decoder.",
+        "clauses, index safety, the neq removal loop by invariant); the text path for numeric operands: Port._line__items_to_ints (refusals exactly "
+        "as Cisco's grammar requires, operands sorted), Port.line.fset (operator, operands, port list == meaning), and Port.items/ports/sport.fset assigned their "
+        "own values keep operator, operands and port set. Bounded (labelled, not counted as proved): the string codec and the same setters natively, named "
+        "ports included, on the stated grids with an independent decoder.",
         trusted_base=["z3 5.1.0", "cvc5 1.0.3 (fallback)", "pyvc VC generator", "spec/portsem.py reference semantics"])
 
 
